@@ -84,6 +84,66 @@ theorem all_inputs_unchanged (st : St) (first : Arr) (others : List (Arr × (Rat
     st.next ≤ (concatInputs st first others).2.base :=
   concatInputs_spec st first others
 
+/-! ## model objects: (native handle, Variables object, views) -/
+
+/-- every copy-producing call of the property's list on a BQM / QM / CQM — `copy()`, `copy.deepcopy`, pickling,
+    construction from a model, `from_bqm` / `from_quadratic_model`, every `inplace=False` method (as coded: copy, then the
+    in-place method on the copy) incl. `spin_to_binary` with and without SPIN variables, arithmetic operators incl.
+    `0 + m`, `-m`, `+m` — returns an object whose native handle and `Variables` object are new cells holding the
+    transformed content, and leaves every existing cell (the receiver's in particular) unchanged -/
+theorem model_calls_fresh (st : MSt) (o : Mdl) (hs : MScoped st o) (f : List Rat → List Rat) (g : List Nat → List Nat)
+    (c : MCall) (hc : c ≠ .view) :
+    let r := c.run st o f g
+    r.2.handle ≠ o.handle ∧ r.2.variables ≠ o.variables ∧ r.2.handle ≠ o.variables ∧ r.2.variables ≠ o.handle ∧
+    st.next ≤ r.2.handle ∧ st.next ≤ r.2.variables ∧
+    r.1.native o.handle = st.native o.handle ∧ r.1.vars o.variables = st.vars o.variables ∧
+    r.1.native r.2.handle = f (st.native o.handle) ∧ r.1.vars r.2.variables = g (st.vars o.variables) := by
+  intro r
+  have hrun : r = freshFrom st o f g := by cases c <;> first | rfl | exact absurd rfl hc
+  obtain ⟨⟨_, hn, hv⟩, h1, h2, h3, h4⟩ := freshFrom_spec st o f g
+  rw [hrun, h1, h2] at *
+  have := hs.1; have := hs.2
+  refine ⟨by omega, by omega, by omega, by omega, Nat.le_refl _, by omega, hn _ hs.1, hv _ hs.2, ?_, ?_⟩
+  · simpa [h1] using h3
+  · simpa [h2] using h4
+
+/-- hence no later in-place edit of either object (coefficients through the handle, labels through the `Variables`
+    object) is visible through the other -/
+theorem model_copies_independent (st : MSt) (o : Mdl) (hs : MScoped st o) (f : List Rat → List Rat) (g : List Nat → List Nat)
+    (c : MCall) (hc : c ≠ .view) (coeffs : List Rat) (labels : List Nat) :
+    let r := c.run st o f g
+    (setNative r.1 r.2.handle coeffs).native o.handle = r.1.native o.handle ∧
+    (setNative r.1 o.handle coeffs).native r.2.handle = r.1.native r.2.handle ∧
+    (setVars r.1 r.2.variables labels).vars o.variables = r.1.vars o.variables ∧
+    (setVars r.1 o.variables labels).vars r.2.variables = r.1.vars r.2.variables := by
+  intro r
+  obtain ⟨h1, h2, _, _, _⟩ := model_calls_fresh st o hs f g c hc
+  exact ⟨read_setNative_other _ _ _ _ (Ne.symm h1), read_setNative_other _ _ _ _ h1,
+    read_setVars_other _ _ _ _ (Ne.symm h2), read_setVars_other _ _ _ _ h2⟩
+
+/-- documented aliases (`.spin` / `.binary`, CQM expression views) are built around the parent's own handle and
+    `Variables`: every edit through one is read through the other -/
+theorem views_track (st : MSt) (o : Mdl) (f : List Rat → List Rat) (g : List Nat → List Nat) (coeffs : List Rat) :
+    (MCall.view.run st o f g).2 = o ∧ (MCall.view.run st o f g).1 = st ∧
+    (setNative st (MCall.view.run st o f g).2.handle coeffs).native o.handle = coeffs :=
+  ⟨rfl, rfl, read_setNative_same st o.handle coeffs⟩
+
+/-- adding a model to a CQM: with `copy=True` the constraint holds the model's data in a new cell and every existing
+    cell — the source model — is unchanged; with `copy=False` the data are moved and the source is left empty -/
+theorem add_to_cqm (st : MSt) (src : Mdl) (copy : Bool) (hs : MScoped st src) :
+    (addConstraint st src copy).2 = st.next ∧
+    (addConstraint st src copy).1.native (addConstraint st src copy).2 = st.native src.handle ∧
+    (copy = true → ∀ k, k < st.next → (addConstraint st src copy).1.native k = st.native k) ∧
+    (copy = false → (addConstraint st src copy).1.native src.handle = []) :=
+  addConstraintFromModel_spec st src copy hs
+
+/-- `add_discrete_from_comparison(comp, label, copy, check_overlaps)` hands `copy` on as `copy` and `check_overlaps` as
+    `check_overlaps`: a requested copy leaves the comparison's left-hand side untouched whatever `check_overlaps` is -/
+theorem add_discrete_plumbing (st : MSt) (lhs : Mdl) (copy checkOverlaps : Bool) (hs : MScoped st lhs) :
+    addDiscreteFromComparison st lhs copy checkOverlaps = addConstraintFromModel st lhs copy ∧
+    (copy = true → (addDiscreteFromComparison st lhs copy checkOverlaps).1.native lhs.handle = st.native lhs.handle) :=
+  ⟨rfl, fun h => (addConstraintFromModel_spec st lhs copy hs).2.2.1 h _ hs.1⟩
+
 /-! ## the code before the repairs: witnesses -/
 
 def st0 : St := { mem := fun _ k => (k : Rat), next := 5 }
